@@ -379,6 +379,54 @@ def t_edit_index(E):
     E.refutable("scan.edit_index", E.eq(w, 0.0))
 
 
+@task("scan.edit_update.roundtrip", props=["C06"], functions=FUNCS)
+def t_edit_update_roundtrip(E):
+    """C06 for Scan.edit with Update: the real edit executed a SECOND time, on its own output, with its own backward request
+    and argdiffs leading back to the original (initial carry, xs).  By induction over the second loop, in lock-step with the
+    old trace: the carry entering iteration i is the OLD carry_i, iteration i applies kernel i's backward request to the edited
+    kernel trace i at its old arguments - which restores old kernel trace i's view with the negated weight (C06 of the kernel,
+    theory/gfi.py c06_for_callee) - hence its carry-out is the old carry_{i+1}.  The old trace is an arbitrary trace of the loop
+    (representation invariant established by simulate / generate / edit: a_loop_trace)."""
+    z3, T = E.z3, E.I.T
+    sc, kfn, init, xs, n = setup(E)
+    k = key(E)
+    old, inner, carry, ys = a_loop_trace(E, sc, kfn, init, xs, n)
+    new_init, new_xs = E.opaque("new_init"), E.opaque("new_xs", "array")
+    E.assume(E.ctx.fn("axis0_len", U, z3.IntSort())(new_xs.t) == n)
+    E.assume(T.d_primal(new_init.t) == new_init.t)
+    ad = (diff(E, new_init, UnknownChange(E)), diff(E, new_xs, UnknownChange(E)))
+    c = chm(E, "constraint")
+    new, w, rd, bwd = E.method(sc, "edit", k, old, update(E, c), ad)
+    first = the_loop(E, 0, "Scan.edit_update")
+    nb = n_scans(E)
+    back_ad = (diff(E, init, UnknownChange(E)), diff(E, xs, UnknownChange(E)))
+    st, val = E.attempt(lambda: E.method(sc, "edit", key(E, "key2"), new, bwd, back_ad))
+    E.require("C06.Scan.edit_update.backward_request_can_be_applied", st == "ok")
+    new2, w2 = val[0], val[1]
+    second = the_loop(E, nb, "Scan.edit_update (backward)")
+    second.prove_invariant(E, "C06.Scan.edit_update.backward_loop_runs_in_lockstep_with_the_old_trace",
+                           lambda i, cy: z3.And(zint(cy[1]) == i, T.d_primal(E.I.to_u(cy[2])) == carry(i)))
+
+    def restored(i):
+        t2, out_i, s_i, w_i, b_i = second.unfold(i)
+        t0 = inner.at(i).t
+        w1 = first.unfold(i)[3]
+        return z3.And(T.tr_choices(t2.t) == T.tr_choices(t0), T.tr_score(t2.t) == T.tr_score(t0), T.tr_retval(t2.t) == T.tr_retval(t0),
+                      zreal(w_i) == -zreal(w1))
+    E.prove("C06.Scan.edit_update.bwd_restores_every_kernel_trace_and_negates_its_weight", forall_i(E, n, restored))
+    E.prove("C06.Scan.edit_update.bwd_restores_the_arguments", E.eq(E.method(new2, "get_args"), (init, xs)))
+    ret2 = E.method(new2, "get_retval")
+    E.prove("C06.Scan.edit_update.bwd_restores_the_final_carry", E.I.to_u(ret2[0]) == carry(n))
+    w_sum = E.I.make_sum(Stacked(n, lambda i: first.unfold(i)[3]))
+    w2_sum = E.I.make_sum(Stacked(n, lambda i: second.unfold(i)[3]))
+    try:
+        E.I.sum_linear([(1, w_sum), (1, w2_sum)])
+    except Exception:
+        pass
+    E.prove("C06.Scan.edit_update.bwd_weight_is_the_negated_weight", E.And(E.eq(w, w_sum), E.eq(w2, w2_sum), E.eq(w2, E.I.unaryop("USub", w))))
+    E.refutable("scan.edit_update.roundtrip", E.eq(w2, w))
+
+
 def _edit_wf(E, r, kind):
     """C01: assess on the new trace's own choices and arguments re-runs the loop in lockstep"""
     z3 = E.z3
